@@ -66,8 +66,51 @@ func Load(path string) error {
 	return json.Unmarshal(b, &script)
 }
 
-// Run executes f under the loaded script and returns the outcome.
+type event struct {
+	kind, label string
+	ok          bool
+}
+
+var events []event
+
+const c20Label = "C20.1 repeated execution in the same process (other map order, other clock): same outcome"
+const c20Course = "C20.1 repeated execution in the same process (other map order, other clock): same course of events"
+
+// Run executes f under the loaded script and returns the outcome. With $VP_TWICE set, f is
+// executed twice in this process with the same script and the two courses of events are compared.
 func Run(f func()) (out Outcome) {
+	if os.Getenv("VP_TWICE") == "" {
+		return runOnce(f)
+	}
+	events = nil
+	out1 := runOnce(f)
+	ev1 := events
+	pos, events = 0, nil
+	Out = Outcome{}
+	out2 := runOnce(f)
+	ev2 := events
+	out = out1
+	n := len(ev1)
+	if len(ev2) < n {
+		n = len(ev2)
+	}
+	for i := 0; i < n; i++ {
+		if ev1[i].kind != ev2[i].kind || ev1[i].label != ev2[i].label {
+			out.Failed = append(out.Failed, c20Course)
+			return out
+		}
+		if ev1[i].ok != ev2[i].ok {
+			out.Failed = append(out.Failed, c20Label)
+			return out
+		}
+	}
+	if len(ev1) != len(ev2) && !out1.Exhausted && !out2.Exhausted {
+		out.Failed = append(out.Failed, c20Course)
+	}
+	return out
+}
+
+func runOnce(f func()) (out Outcome) {
 	defer func() {
 		if r := recover(); r != nil {
 			switch r := r.(type) {
@@ -144,6 +187,7 @@ func Assume(c bool) {
 	}
 }
 func Assert(c bool, label string) {
+	events = append(events, event{"assert", label, c})
 	if !c {
 		Out.Failed = append(Out.Failed, label)
 	}
@@ -153,7 +197,10 @@ func Note(c bool, label string) {
 		Out.Notes = append(Out.Notes, label)
 	}
 }
-func Reach(label string) { Out.Reached = append(Out.Reached, label) }
+func Reach(label string) {
+	events = append(events, event{"reach", label, true})
+	Out.Reached = append(Out.Reached, label)
+}
 
 // Bound returns the quick or the thorough value of a bound, according to $VERIF_TIER.
 func Bound(quick, thorough int) int {
